@@ -326,6 +326,10 @@ pub fn run(ctx: &Ctx) -> Collector {
                 cases.push((v, s, m));
             }
         }
+        // wide quiet zones: coordinates beyond 255 and beyond 1000 (narrow integer types, fixed-width formatting)
+        for &m in &[79usize, 100, 255, 300, 1000] {
+            cases.push((v, v % 6, m));
+        }
     }
     pool::par_for(cases.len(), |i| {
         let (v, s, m) = cases[i];
@@ -343,8 +347,55 @@ pub fn run(ctx: &Ctx) -> Collector {
             }
         }
     });
-    col.space(json!({"name": "versions x shapes x margins", "cases": cases.len(), "what": "all 40 versions (byte payload at level-M capacity) x 6 built-in shapes x margins {0,1,4,16}, single layer", "exhaustive": true, "wall_s": (t1.elapsed().as_secs_f64() * 100.0).round() / 100.0}));
+    col.space(json!({"name": "versions x shapes x margins", "cases": cases.len(), "what": "all 40 versions (byte payload at level-M capacity) x 6 built-in shapes x margins {0,1,4,16}, and margins {79,100,255,300,1000} with one shape per version, single layer", "exhaustive": true, "wall_s": (t1.elapsed().as_secs_f64() * 100.0).round() / 100.0}));
     col.sample(json!({"kind": "svg-sweep", "version": 40, "shape": 1, "margin": 16}));
+
+    // ---- synthetic matrices (QRCode::default(size) + set): blank rows and columns, isolated modules, full rows
+    let t1b = std::time::Instant::now();
+    let mut syn: Vec<(usize, &str, usize)> = vec![];
+    for &n in &[21usize, 25, 45, 177] {
+        for name in ["all-light", "all-dark", "checkerboard", "even-rows", "odd-rows", "even-cols", "odd-cols", "last-row", "first-col", "diagonal", "row-7-blank"] {
+            for s in 0..6usize {
+                syn.push((n, name, s));
+            }
+        }
+    }
+    let nsyn = std::sync::atomic::AtomicU64::new(0);
+    let pat = |name: &str, n: usize, r: usize, c: usize| -> bool {
+        match name {
+            "all-light" => false,
+            "all-dark" => true,
+            "checkerboard" => (r + c) % 2 == 0,
+            "even-rows" => r % 2 == 0,
+            "odd-rows" => r % 2 == 1,
+            "even-cols" => c % 2 == 0,
+            "odd-cols" => c % 2 == 1,
+            "last-row" => r == n - 1,
+            "first-col" => c == 0,
+            "diagonal" => r == c,
+            _ => r != 7 && (r * 3 + c) % 4 != 1,
+        }
+    };
+    pool::par_for(syn.len() + 21 * 21 * 2, |i| {
+        let (n, name, s, single) = if i < syn.len() { (syn[i].0, syn[i].1, syn[i].2, None) } else { (21, "single-module", (i - syn.len()) % 2, Some((i - syn.len()) / 2)) };
+        let mut q = Box::new(QRCode::default(n));
+        for r in 0..n {
+            for c in 0..n {
+                let v = match single {
+                    Some(k) => r * n + c == k,
+                    None => pat(name, n, r, c),
+                };
+                q.data[r * n + c].set(v);
+            }
+        }
+        nsyn.fetch_add(1, std::sync::atomic::Ordering::Relaxed);
+        let (f, digest, _) = run_program(&[Op::Shape(s), Op::Margin(2)], &q);
+        col.eval(digest);
+        for (k, w) in f {
+            col.violation((11, i as u64), format!("C12/{}", k), format!("synthetic {} matrix of side {} shape {}{}: {}", name, n, svgcheck::SHAPE_NAMES[s], single.map(|k| format!(" (module {})", k)).unwrap_or_default(), w), json!({"kind": "svg-synthetic", "size": n, "pattern": name, "shape": s, "single": single}));
+        }
+    });
+    col.space(json!({"name": "synthetic matrices", "cases": nsyn.load(std::sync::atomic::Ordering::Relaxed), "what": "sides {21,25,45,177} x 11 patterns (all-light, all-dark, checkerboard, row/column stripes, last row, first column, diagonal, a pattern with a blank row 7) x 6 shapes, and every single-module matrix of side 21 in 2 shapes", "exhaustive": true, "wall_s": (t1b.elapsed().as_secs_f64() * 100.0).round() / 100.0}));
 
     // ---- colour formatting
     let mut colours: Vec<[u8; 4]> = vec![];
@@ -383,7 +434,7 @@ pub fn run(ctx: &Ctx) -> Collector {
     col.space(json!({"name": "colour formatting", "cases": colours.len(), "what": "all 4x256 single-channel values and the 8^4 grid of edge values through [u8;4], [u8;3], &[u8], Vec<u8>; single-channel sweep also through the rendered document", "exhaustive": true}));
 
     // ---- image strings
-    let al = ['a', '&', '<', '>', '"', '\'', ' ', ';', '#', '\u{e9}', '\u{1F600}'];
+    let al = ['a', '&', '<', '>', '"', '\'', ' ', ';', '#', '\u{e9}', '\u{1F600}', '{', '}', '0'];
     let mut strings: Vec<String> = vec![String::new()];
     for a in al {
         strings.push(a.to_string());
@@ -434,7 +485,7 @@ pub fn run(ctx: &Ctx) -> Collector {
             col.violation((30, i as u64), format!("C12/{}", k), format!("image string {:?}: {}", s, w), json!({"kind": "svg-image", "image": s}));
         }
     });
-    col.space(json!({"name": "image strings", "cases": strings.len(), "what": format!("all 1463 strings of length <= 3 over {{a & < > \" ' space ; # e-acute U+1F600}}, alone and inside 7 contexts (data:, data:image/svg+xml;utf8, URL + extension, ./, #, extension only, a 300-character run in front) = {} strings, + {} realistic URLs, data URIs, paths and injection attempts", n_short, strings.len() - n_short), "exhaustive": true}));
+    col.space(json!({"name": "image strings", "cases": strings.len(), "what": format!("all 2954 strings of length <= 3 over {{a & < > \" ' space ; # e-acute U+1F600 {{ }} 0}}, alone and inside 7 contexts (data:, data:image/svg+xml;utf8, URL + extension, ./, #, extension only, a 300-character run in front) = {} strings, + {} realistic URLs, data URIs, paths and injection attempts", n_short, strings.len() - n_short), "exhaustive": true}));
     col.sample(json!({"kind": "svg-image", "image": "a&<"}));
     col
 }
